@@ -74,6 +74,8 @@ const (
 	sBidi             // handler echoes the client's messages until end, then OK
 	sOneway           // oneway: handler returns SkipResponse
 	sSlow             // unary with a client deadline shorter than the handler: the client's wait fails (dirties the pooled call state)
+	sStreamErr        // server streams n messages, then an application-defined error (the caller drains the stream, then asks for the response)
+	sStreamPanic      // server streams n messages, then panics
 	nScripts
 )
 
@@ -155,6 +157,19 @@ func (e *env) handle(ctx rpc.Context, ch rpc.ServerChannel) (ref.R[[]byte], stat
 		panic(fmt.Sprintf("handler panic of call %d", id))
 	case sEarly:
 		return ret(status.OK, resultOf(run, id), true)
+	case sStreamErr, sStreamPanic:
+		for k := 1; k <= n; k++ {
+			e.rec.log(Event{E: "snd", I: id, D: "s2c", N: k})
+			if st := ch.Send(ctx, streamMsg(run, id, k)); !st.OK() {
+				return ret(st, 0, false)
+			}
+		}
+		if script == sStreamPanic {
+			e.rec.log(Event{E: "hr", I: id, Panic: true})
+			e.hdone.Add(1)
+			panic(fmt.Sprintf("handler panic of call %d after streaming", id))
+		}
+		return ret(status.New(status.Code(fmt.Sprintf("app_code_%d", id%3)), fmt.Sprintf("stream of call %d failed", id)), 0, false)
 	case sSrvStream:
 		for k := 1; k <= n; k++ {
 			e.rec.log(Event{E: "snd", I: id, D: "s2c", N: k})
